@@ -34,7 +34,9 @@ RULE = ("configurations = initial value x validator x watches x per-thread opera
         "nothing, \"a\", nil}; quick: 2 threads x 1-2 operations, every schedule with <= 2 pre-emptions "
         "(one configuration at source-line granularity, the others at the granularity of the labelled "
         "program points; 2x2 operations with <= 1 pre-emption); thorough adds 3 threads, 3 operations and "
-        "seeded random schedules.  Schedules with the same projection on the model's program points are "
+        "seeded random schedules.  Initial values satisfy the configuration's validator, except in the "
+        "malformed stream (1 configuration in quick, 7 in thorough) where construction itself must fail "
+        "with 'Invalid reference state'.  Schedules with the same projection on the model's program points are "
         "merged; a case is non-trivial when at least two threads take steps between the first and the "
         "last step of some operation (a real interleaving); distinct = distinct JSON.")
 TRUSTED = ["threading.RLock is modelled as a mutual-exclusion lock with an owner (harness/vlib/sched.py "
@@ -86,6 +88,26 @@ def cfg(init, threads, validator=None, watches=0, gran="label", preempt=2, limit
             "gran": gran, "explore": {"preempt": preempt, "limit": limit, "random": random}}
 
 
+def valid_init(validator, v):
+    """The initial value satisfies the validator (mirrors c12_impl._validator and Corr.valid:
+    an int below n).  Atom.__init__ validates its initial state, so a configuration whose initial
+    value is rejected has no atom to schedule; such configurations are generated only on purpose
+    (`rejected_init`) and are predicted by model and spec as a construction error (OFail 5)."""
+    if validator is None:
+        return True
+    return isinstance(v, dict) and "i" in v and v["i"] < validator["lt"]
+
+
+def rejected_init(tier):
+    """malformed stream: the constructor must refuse an initial value its validator rejects"""
+    out = [cfg(NAN, [[swap("id")], [deref()]], validator={"lt": 2})]
+    if tier != "quick":
+        out += [cfg(init, [[swap("inc", "core")], [reset(I(0))]], validator={"lt": 2}, watches=1)
+                for init in (I(2), {"f": 0}, VN, {"s": "a"}, WA, None)]
+    assert not any(valid_init(c["validator"], c["init"]) for c in out)
+    return out
+
+
 def configs(tier, rng):
     out = [
         cfg(I(0), [[swap("inc")], [swap("inc")]], gran="line"),
@@ -128,9 +150,13 @@ def configs(tier, rng):
                 return deref(api)
             nthreads = rng.choice([2, 2, 3])
             threads = [[rop() for _ in range(rng.choice([1, 1, 2]))] for _ in range(nthreads)]
-            out.append(cfg(rng.choice(vals), threads, validator=rng.choice([None, None, {"lt": 2}]),
+            # the initial value is drawn among the values the configuration's validator accepts
+            validator = rng.choice([None, None, {"lt": 2}])
+            init = rng.choice([v for v in vals if valid_init(validator, v)])
+            out.append(cfg(init, threads, validator=validator,
                            watches=rng.choice([0, 1, 2]), preempt=2 if nthreads == 2 else 1, limit=1500))
-    return out
+    assert all(valid_init(c["validator"], c["init"]) for c in out)
+    return out + rejected_init(tier)
 
 
 _STATS = {}
@@ -240,7 +266,8 @@ def coq_out(o):
         return "(OFail 2%N)"
     st = o.get("status")
     if st != "ok":
-        return "(OFail %d%%N)" % {"deadlock": 1, "hang": 2, "maxsteps": 2, "unmapped": 3, "diverged": 4}.get(st, 9)
+        return "(OFail %d%%N)" % {"deadlock": 1, "hang": 2, "maxsteps": 2, "unmapped": 3, "diverged": 4,
+                                    "ctor_invalid": 5}.get(st, 9)
     if any(l not in LABS for _, l, _ in o["msched"]):
         return "(OFail 3%N)"
     results = "[" + "; ".join(G.lst([coq_res(r) for r in rs], "ores") for rs in o["res"]) + "]"
